@@ -40,11 +40,12 @@ def plain_tokens(s):
     return [t for t in tokenize.tokenize(io.BytesIO(s.encode("utf-8")).readline) if t.type != tokenlib.ENCODING]
 
 
-def close(a, b):
+def close(a, b, atol=0.0):
+    """relative tolerance TOL; `atol` for values that come out of a cancellation (offset conversions landing near zero)"""
     a, b = float(a), float(b)
     if math.isnan(a) or math.isnan(b):
         return math.isnan(a) and math.isnan(b)
-    return a == b or abs(a - b) <= TOL * max(abs(a), abs(b), 1e-300)
+    return a == b or abs(a - b) <= TOL * max(abs(a), abs(b), 1e-300) + atol
 
 
 class Check(Property):
@@ -233,7 +234,8 @@ class Check(Property):
             return a == m["err"] or {a, m["err"]} <= {"TypeError", "AttributeError"} or {a, m["err"]} <= {"ValueError", "IndexError", "AssertionError"}
         if "ok" in i and "ok" in m and c["kind"] in ("mk", "convert"):
             a, b = i["ok"], m["ok"]
-            ok = canon(a["u"]) == canon(b["u"]) and close(a["n"], Fraction(b["n"])) and close(a["s"], Fraction(b["s"]))
+            atol = 1e-9 if c["kind"] == "convert" else 0.0
+            ok = canon(a["u"]) == canon(b["u"]) and close(a["n"], Fraction(b["n"]), atol) and close(a["s"], Fraction(b["s"]))
             if ok and len(io) > 1:
                 ok = "ok" in io[1] and "ok" in mo[1] and close(io[1]["ok"], Fraction(mo[1]["ok"]))
             return ok
@@ -319,10 +321,10 @@ class Check(Property):
             tag = f"C19 ({n} +/- {s}) {c['src']} -> {c['dst']}"
             if "ok" not in r:
                 return [f"{tag}: raised {r}"]
-            if not (close(r["ok"]["n"], want_n) and close(r["ok"]["s"], want_s)):
+            if not (close(r["ok"]["n"], want_n, 1e-9) and close(r["ok"]["s"], want_s)):
                 v.append(f"{tag}: {r['ok']['n']} +/- {r['ok']['s']}, expected {float(want_n)} +/- {float(want_s)} (error scaled by the slope)")
             plain = u.Quantity(float(n), c["src"]).to(c["dst"]).magnitude
-            if not close(r["ok"]["n"], plain):
+            if not close(r["ok"]["n"], plain, 1e-9):
                 v.append(f"{tag}: nominal value {r['ok']['n']} differs from the plain quantity's {plain}")
             if oa == 0 and ob == 0 and n != 0 and want_n != 0:
                 if not close(r["ok"]["rel"], abs(s / n)):
